@@ -70,7 +70,7 @@ DESIGN = {
     "C11": [("sched.cfg", 400), ("history.cfg", 200), ("sched_inv.cfg", "inv"), ("live_sched.cfg", "live")],
     "C12": [("sched.cfg", 400), ("sched_inv.cfg", "inv")],
     "C13": [("sched.cfg", 250), ("flow.cfg", "all"), ("live_sched.cfg", "live")],
-    "C14": [("flow.cfg", "all"), ("live_retry.cfg", "live"), ("live_sched.cfg", "live")],
+    "C14": [("flow.cfg", "all"), ("sfail.cfg", "all"), ("live_retry.cfg", "live"), ("live_sched.cfg", "live")],
     "C18": [("flow.cfg", "all"), ("sched.cfg", 250), ("history.cfg", 400)],
 }
 # (history_inv: 10.1 million distinct states, ~17 min on 8 workers: a crash at every operation of every behaviour, twice)
@@ -200,6 +200,33 @@ def gen_scenarios(pid, tier, seed, wd):
     return out
 
 
+def group_twins(behs):
+    """Behaviours of sfail.cfg differ in the environment script only by which storage operations fail: put each
+    failure-free behaviour first and its failing twins right after it, flagged, so that the monitor compares what
+    the real code does in each twin with what it did in the healthy run (Props!Transparent)."""
+    out, groups, order = [], {}, []
+    for cfg, b in behs:
+        if cfg != "sfail.cfg":
+            out.append((cfg, b))
+            continue
+        key = json.dumps([it for it in b["script"] if not str(it.get("key", "")).startswith("st.")], sort_keys=True)
+        if key not in groups:
+            groups[key] = []
+            order.append(key)
+        groups[key].append(b)
+    for key in order:
+        g = groups[key]
+        base = [b for b in g if not any(str(it.get("key", "")).startswith("st.") for it in b["script"])]
+        if not base:
+            out.extend(("sfail.cfg", b) for b in g)
+            continue
+        out.append(("sfail.cfg", base[0]))
+        for b in g:
+            if b is not base[0]:
+                out.append(("sfail.cfg", dict(b, twin=True)))
+    return out
+
+
 def run_sm(pid, tier, seed, replay, t0, extra_cov=None, extra_viol=0, extra_rc=0):
     import replay as rpl
     wd = vlib.workdir("sm." + pid)
@@ -210,7 +237,12 @@ def run_sm(pid, tier, seed, replay, t0, extra_cov=None, extra_viol=0, extra_rc=0
         scs = [rp["scenario"]]
     else:
         behs, dstats, viols = design_runs(pid, tier, seed, wd)
+        if pid == "C14":
+            behs = group_twins(behs)
         scs = [rpl.to_scenario(b, "tlc-%s-%d" % (cfg.replace(".cfg", ""), i)) for i, (cfg, b) in enumerate(behs)]
+        for sc, (cfg, b) in zip(scs, behs):
+            if b.get("twin"):
+                sc["cfg"]["twin"] = True
         scs += gen_scenarios(pid, tier, seed, wd)
     log_path = run_harness(scs, wd, "run")
     rejects, n_lines, mstats = vlib.monitor(log_path, pid)
